@@ -141,7 +141,7 @@ func (a *c14actor) HandleCall(from gen.PID, ref gen.Ref, request any) (any, erro
 	}
 	return "pong", nil
 }
-func (a *c14actor) HandleEvent(ev gen.MessageEvent) error { return nil }
+func (a *c14actor) HandleEvent(ev gen.MessageEvent) error { a.rec.add(a.PID(), ev); return nil }
 
 // ---- node pair ----------------------------------------------------------------------------------------
 
